@@ -1,59 +1,10 @@
 """C04 Invalid input raises LoadError and nothing else."""
-from vf.gen import Module, Plan
-
-SCALARS = ["int", "float", "str", "bool", "Decimal", "Fraction", "complex", "bytes", "bytearray", "NoneType", "timedelta"]
-
-SETUP_SCALARS = '''
-from decimal import Decimal
-from fractions import Fraction
-from datetime import timedelta, date, time, datetime
-import re
-Atom = Union[None, bool, int, float, str, bytes]
-NoneType = type(None)
-RS = six_retorts()
-TYPES = {"int": int, "float": float, "str": str, "bool": bool, "Decimal": Decimal, "Fraction": Fraction,
-         "complex": complex, "bytes": bytes, "bytearray": bytearray, "NoneType": None, "timedelta": timedelta,
-         "date": date, "time": time, "datetime": datetime, "Pattern": re.Pattern}
-LD = {name: {k: r.get_loader(tp) for k, r in RS.items()} for name, tp in TYPES.items()}
-
-def shape(kind: int, d):
-    """root-kind selector: the atom itself or the atom inside / next to every wrong container kind"""
-    if kind == 0: return d
-    if kind == 1: return [d]
-    if kind == 2: return (d,)
-    if kind == 3: return {"a": d}
-    if kind == 4: return []
-    if kind == 5: return {}
-    if kind == 6: return [[d]]
-    if kind == 7: return {1: d}
-    return (d, d)
-
-def c04_ok(name, strict, d):
-    for dt in DT_MODES:
-        o = outcome(LD[name][(strict, dt)], d)
-        if o[0] == "other_exc":
-            return False
-        if o[0] == "load_error" and not only_load_errors(o[2]):
-            return False
-    return True
-'''
+from vf.gen import Plan
+from props.fam_l1 import l1_loader_module
 
 
 def build(tier, seed):
-    quick = tier == "quick"
-    slen = 2 if quick else 3
-    t = 30 if quick else 240
-    mods = []
-    m = Module("c04_scalars").pre(SETUP_SCALARS)
-    for name in SCALARS + ["date", "time", "datetime", "Pattern"]:
-        for strict in (True, False):
-            m.ob(f"scalar_{name}_{'strict' if strict else 'lax'}",
-                 "d: Atom, kind: int",
-                 f"return c04_ok({name!r}, {strict}, shape(kind, d))",
-                 pre=["0 <= kind <= 8", f"not isinstance(d, (str, bytes)) or len(d) <= {slen}"],
-                 timeout=t, family="L1 scalar loaders x atom kinds x root container kinds",
-                 bounds=f"atom in None|bool|int|float|str|bytes, len(str/bytes)<={slen}, 9 root shapes, 3 debug modes")
-    mods.append(m)
+    mods = [l1_loader_module("C04", tier)]
     return Plan("C04", mods,
                 assumptions=["CrossHair models of builtins (floats as reals: numeric boundary regions are owned by the E2 kernels)"],
-                bounds={"strings": f"len<={slen}"}, outside=["strings longer than the bound"])
+                bounds={}, outside=["strings longer than the bound"])
